@@ -861,7 +861,7 @@ fn magic_of(kind: Kind) -> &'static str { match kind { Kind::Anm => "!anmmap", K
 /// (label, script body) variants a signature for opcode 2000 is exercised with
 const SIG_VARIANTS: &[(&str, &str)] = &[
     ("unused", ""), ("no args", "ins_2000();"), ("blob", "ins_2000(@blob=\"00000000 00000000\");"), ("one int", "ins_2000(1);"), ("string", "ins_2000(\"a\");"),
-    ("three args", "ins_2000(1, 2.0, 3);"), ("label args", "l:\n    ins_2000(offsetof(l), timeof(l));"),
+    ("three args", "ins_2000(1, 2.0, 3);"), ("label args", "l:\n    ins_2000(offsetof(l), timeof(l));"), ("two ints", "ins_2000(3, 4);"), ("arg0 pseudo", "ins_2000(@arg0=3, 4);"),
 ];
 const SIG_ALPHABET: &[&str] = &["S", "s", "f", "z", "m", "p", "o", "t", "_", "-", "(", ")", "=", ";", ",", "0", "a", "\""];
 
@@ -881,6 +881,7 @@ const ATTR_SIGS: &[&str] = &[
     "z(bs=0)", "z(bs=4294967296)", "z(bs=-1)", "z(bs=4)", "z(bs=1)", "z(bs=2147483647)", "m(mask=256,0,0;bs=4)", "m(bs=4;mask=1,2,3)", "m(bs=4)", "m(mask=1,2,3)", "m(bs=4;mask=1,2)", "m(bs=4;mask=1,2,3,4)", "m(bs=4;mask=-1,0,0)",
     "m(bs=0;mask=1,2,3)", "p(len=4)", "p(bs=4)", "p(bs=0)", "p", "z", "z(len=4)", "z(len=0)", "z(len=3;bs=4)", "z(len=4294967296)", "z(len=-1)", "z(bs=4)S", "Sz(bs=4)", "z(bs=4)z(bs=4)",
     "S(enum=\"\")", "S(enum=\"1x\")", "S(enum=\"bool\")", "S(enum=\"NoSuch\")", "S(enum=bool)", "S(enum=1)", "f(enum=\"bool\")", "S(enum=\"a\";enum=\"b\")", "s(arg0)S(arg0)", "S(arg0)", "f(arg0)", "s(arg0)", "u(arg0)", "Ss(arg0)",
+    "_s(arg0)S", "-s(arg0)S", "--s(arg0)S", "_u(arg0)", "-b(arg0)S", "s(arg0)_S", "S_s(arg0)", "__s(arg0)", "_s(arg0)", "s(arg0)-", "_S(arg0)", "f_s(arg0)", "_s(arg0;imm)S", "s(imm;arg0)S", "_o", "_t", "_ot", "o_t", "-ot",
     "oo", "ot", "to", "tt", "o", "t", "o(hex)", "S(hex)", "S(imm)", "f(imm)", "S(imm;hex;imm)", "S()", "S(", "S(=)", "S(x=)", "S(x)", "S(bs=4)", "_(imm)", "-(imm)", "z(bs=4;bs=8)", "z(bs=\"4\")", "S(imm=1)",
     "b-", "b---S", "ss-", "sS", "bS", "Sb", "sss", "---", "_", "__", "S_", "C", "c", "N", "n", "E", "U(hex)", "T", "T(imm)", "F", "q", "é", "S S", "S,S", "S;S", "SSSSSSSSSSSSSSSSSSSSSSSSSSSSSSSSS", "S(imm)f(imm)z(bs=4)",
 ];
